@@ -710,8 +710,8 @@ def _isimmutable(obj):
 class _hashable_function_wrapper:
 
     def __init__(self, wrapped, identifier):
-        self.__nutils_hash__ = nutils_hash(('hashable_function', identifier))
         functools.update_wrapper(self, wrapped)
+        self.__nutils_hash__ = nutils_hash(('hashable_function', identifier)) # after update_wrapper, which copies the wrapped function's attributes
 
     def __call__(*args, **kwargs):
         return args[0].__wrapped__(*args[1:], **kwargs)
